@@ -398,3 +398,42 @@ def atom_get_normalized(cx):
                       st.field(res, '$holds').t == cop_sem(cop.t, x.t, value.t), z3.BoolVal(bool(failed.get('empty'))))
     cx.ensures(post)
     cx.raises(lambda st, e: z3.Not(reduced.t))
+
+
+# ---------------------------------------------------------------- simplify / add_to_condition (C02)
+def simplify_contract(file, cls, neutral_cls, sem):
+    @contract(file, f'{cls}.simplify', ['C02'])
+    def c(cx):
+        """simplification keeps the meaning: removing the neutral element (true for and, false for or) of a conjunction / disjunction"""
+        me = cx.ref('self_ref', cls); c1, c2 = cx.ref('cond1'), cx.ref('cond2')
+        SIMP = z3.Function('simplified', REF, REF); ISN = z3.Function('is_' + neutral_cls, REF, B)
+        self = cx.obj(cls, cond1=c1, cond2=c2)
+        cx.param(self=self)
+        cx.call('simplify', lambda ex, st, r, a, kw: V('ref', SIMP(r.t)), trusted='Condition.simplify on sub-conditions: equivalent condition')
+        cx.isinstance(lambda ex, st, o, k: ISN(o.t))
+        y = z3.Const('y', REF)
+        cx.axiom(z3.ForAll([y], holds(SIMP(y)) == holds(y)))
+        cx.axiom(z3.ForAll([y], z3.Implies(ISN(y), holds(y) == (neutral_cls == 'TrueCond'))))
+
+        def post(st, r):
+            h = holds(r.t) if r.kind == 'ref' else sem(holds(st.field(self, 'cond1').t), holds(st.field(self, 'cond2').t))
+            return h == sem(holds(c1.t), holds(c2.t))
+        cx.ensures(post)
+    return c
+
+
+simplify_contract('program/condition/and_cond.py', 'And', 'TrueCond', lambda a, b: z3.And(a, b))
+simplify_contract('program/condition/or_cond.py', 'Or', 'FalseCond', lambda a, b: z3.Or(a, b))
+
+
+@contract('program/assignment/assignment.py', 'Assignment.add_to_condition', ['C02'])
+def add_to_condition(cx):
+    """the assignment now happens only if its old condition AND the added condition hold"""
+    old, new = cx.ref('old_condition'), cx.ref('cond')
+    self = cx.obj('Assignment', condition=old)
+    cx.param(self=self, cond=new)
+
+    def mk_and(ex, st, r, a, kw):
+        t = ex.fresh(REF, 'and'); ex.axioms.append(holds(t) == z3.And(holds(a[0].t), holds(a[1].t))); return V('ref', t)
+    cx.call('And', mk_and)
+    cx.ensures(lambda st, r: holds(st.field(self, 'condition').t) == z3.And(holds(old.t), holds(new.t)))
